@@ -1,0 +1,75 @@
+// Copyright (c) ZeroC, Inc.
+
+//! Thin wrappers that expose the private lexers, the preprocessor and the doc-comment parser to an external
+//! verification harness. This module is only compiled with `--cfg slicec_verif`; it adds no behavior.
+
+use crate::diagnostics::Diagnostics;
+use crate::grammar::DocComment;
+use crate::parsers::{CommentParser, Preprocessor};
+use crate::slice_file::{Location, Span};
+use std::collections::HashSet;
+
+/// (start row, start col, end row, end col)
+pub type Loc4 = (usize, usize, usize, usize);
+
+fn loc4(start: Location, end: Location) -> Loc4 {
+    (start.row, start.col, end.row, end.col)
+}
+
+/// Runs the preprocessor over `text` with the provided symbols defined.
+/// Returns the surviving source blocks (location + content) and the symbols defined afterwards,
+/// or the diagnostics' codes if anything was reported.
+#[allow(clippy::type_complexity)]
+pub fn preprocess(text: &str, symbols: &[String]) -> Result<(Vec<(Loc4, String)>, Vec<String>), Vec<(String, Option<Loc4>)>> {
+    let mut defined: HashSet<String> = symbols.iter().cloned().collect();
+    let mut diagnostics = Diagnostics::new();
+    let result = {
+        let preprocessor = Preprocessor::new("hook", &mut defined, &mut diagnostics);
+        preprocessor
+            .parse_slice_file(text)
+            .map(|blocks| blocks.map(|b| (loc4(b.start, b.end), b.content.to_owned())).collect::<Vec<_>>())
+    };
+    match result {
+        Ok(blocks) => {
+            let mut symbols: Vec<String> = defined.into_iter().collect();
+            symbols.sort();
+            Ok((blocks, symbols))
+        }
+        Err(()) => Err(diagnostics
+            .into_inner()
+            .iter()
+            .map(|d| (d.code().to_owned(), d.span().map(|s| loc4(s.start, s.end))))
+            .collect()),
+    }
+}
+
+/// Tokenizes `text` with the preprocessor's lexer. Tokens and errors are rendered with `Debug`.
+pub fn lex_preprocessor(text: &str) -> Vec<Result<(String, Loc4), (String, Loc4)>> {
+    crate::parsers::verif_lex_preprocessor(text)
+}
+
+/// Tokenizes `text` (as a single source block starting at 1:1) with the Slice lexer.
+pub fn lex_slice(text: &str) -> Vec<Result<(String, Loc4), (String, Loc4)>> {
+    crate::parsers::verif_lex_slice(text)
+}
+
+/// Tokenizes the lines of a doc comment (text after `///`, with the span of that text) with the comment lexer.
+pub fn lex_comment(lines: &[(String, Loc4)]) -> Vec<Result<(String, Loc4), (String, Loc4)>> {
+    crate::parsers::verif_lex_comment(lines)
+}
+
+/// Parses the lines of a doc comment. Returns the comment (if it parsed) and the codes of any diagnostics.
+pub fn parse_doc_comment(lines: &[(String, Loc4)], identifier: &str) -> (Option<DocComment>, Vec<String>) {
+    let mut diagnostics = Diagnostics::new();
+    let identifier = identifier.to_owned();
+    let input: Vec<(&str, Span)> = lines
+        .iter()
+        .map(|(text, l)| {
+            let span = Span::new(Location { row: l.0, col: l.1 }, Location { row: l.2, col: l.3 }, "hook");
+            (text.as_str(), span)
+        })
+        .collect();
+    let result = CommentParser::new("hook", &identifier, &mut diagnostics).parse_doc_comment(input);
+    let codes = diagnostics.into_inner().iter().map(|d| d.code().to_owned()).collect();
+    (result.ok(), codes)
+}
